@@ -321,6 +321,45 @@ def log5(ctx):
                 ok = True
         ctx.check(ok, '%s:cursor' % b.path, where(b, (calls[0].point if calls else b.entry)), 'conversion must-calls forward(self.cursor)',
                   'the frame reader does not hand its in-block cursor to the writer: new entries would overwrite the last block from its start')
+        # ... and hands over EXACTLY the cursor: the reader stopped in front of the first header it could not accept (all
+        # zeros: the end of the log). Resuming anywhere else -- the start of a damaged tail, a rounded position --
+        # either overwrites accepted frames or leaves zero bytes in front of the new entries, which the next replay
+        # reads as the end of the log.
+        for cs in calls:
+            afs = b.affine_alts(cs.args[1]) if len(cs.args) > 1 else None
+            if not afs:
+                # not an additive expression: any other arithmetic on the way (rounding, masking, scaling) is not the cursor
+                def ops_of(op, d=0, seen=None):
+                    seen = set() if seen is None else seen
+                    out = set()
+                    if op['k'] not in ('copy', 'move') or d > 12 or op['place']['l'] in seen:
+                        return out
+                    seen.add(op['place']['l'])
+                    for (_p, kind, data) in b.defs.get(op['place']['l'], []):
+                        if kind == 'assign':
+                            rv = data['rv']
+                            if rv['k'] in ('binop', 'unop'):
+                                out.add(rv['op'].replace('WithOverflow', ''))
+                                out |= ops_of(rv['a'], d + 1, seen)
+                                if 'b' in rv:
+                                    out |= ops_of(rv['b'], d + 1, seen)
+                            elif rv['k'] in ('use', 'cast'):
+                                out |= ops_of(rv['op'], d + 1, seen)
+                    return out
+                ops_ = sorted(ops_of(cs.args[1])) if len(cs.args) > 1 else []
+                if ops_:
+                    ctx.check(False, '%s:cursor-exact' % b.path, where(b, cs.point), '',
+                              'the writer resumes at a position computed from the cursor (%s), not at the cursor: accepted frames would be overwritten, or a gap of zero bytes left in front of the new entries would end the log at the next replay' % ', '.join(ops_))
+                continue
+            def is_cursor(af):
+                return af[1] == 0 and len(af[0]) == 1 and all(cf == 1 and ((k_[0] == 'mem' and k_[1] == 'FrameReader.cursor') or (k_[0] == 'proj' and str(k_[2]).endswith('.cursor'))) for (k_, cf) in af[0].items())
+            blk_len = ctx.f.const_value('BLOCK_NUM_BYTES')
+            # the end of the block is the one other place the reader itself would go to (when no header fits any more);
+            # whether that test is the right one is CD2's business
+            bad = [af for af in afs if not is_cursor(af) and not (not af[0] and blk_len is not None and af[1] == blk_len)]
+            ctx.check(not bad, '%s:cursor-exact' % b.path, where(b, cs.point), 'the amount handed to forward() is the cursor itself',
+                      'the writer can resume at %s, not at the reader\'s cursor: accepted frames would be overwritten, or a gap of zero bytes left in front of the new entries would end the log at the next replay' %
+                      ' / '.join(' + '.join([str(k_[-1]) for k_ in sorted(af[0], key=str)] + ([str(af[1])] if af[1] or not af[0] else [])) for af in bad))
     if n < 3:
         ctx.missing('chain', 'reader->writer hand-over chain incomplete (%d of 3 links found)' % n)
 
